@@ -22,9 +22,12 @@ func run(raw json.RawMessage) (hx.Case, error) {
 	g := segs[0]
 	c := hx.Case{Obs: g}
 	c.Coq = hx.App("mk_case", engsim.CoqProg(in.S.Prog), hx.N(in.S.Cap), engsim.CoqInit(in.S.Init),
-		hx.N(uint64(g.Out)), engsim.CoqSteps(g.Steps), hx.N(g.Clock), engsim.CoqEnts(g.PendP), engsim.CoqEnts(g.PendS))
+		hx.N(in.S.T0), hx.B(in.S.Hooks), hx.N(uint64(g.Out)), engsim.CoqSteps(g.Steps), hx.N(g.Clock), engsim.CoqEnts(g.PendP), engsim.CoqEnts(g.PendS))
 	st := engsim.Analyse(segs)
 	c.Tags = st.Tags(in.S.Hooks)
+	if in.S.T0 > 0 {
+		c.Tags = append(c.Tags, "set-current-time")
+	}
 	c.Nontrivial = st.SameInstantSpawn > 0 && st.EqualTimePairs > 0 && st.Panics == 0
 	return c, nil
 }
@@ -40,6 +43,12 @@ func directed() []engsim.Script {
 			Init: []engsim.Init{{T: 0, H: 0, Sec: false, Bud: 3}, {T: 2, H: 1, Sec: true, Bud: 2}, {T: 2, H: 0, Sec: false, Bud: 1}}},
 		// empty engine
 		{Prog: [][][]engsim.Spawn{{{}}}, Cap: 0, Init: nil},
+		// clock set after the first queued event: dispatchNext panics, the event is dropped
+		{Prog: [][][]engsim.Spawn{{{sp(1, 0, false)}}}, Cap: 3, T0: 6,
+			Init: []engsim.Init{{T: 5, H: 0, Sec: false, Bud: 2}, {T: 7, H: 0, Sec: true, Bud: 0}}},
+		// clock set exactly at the first queued event: fine
+		{Prog: [][][]engsim.Spawn{{{sp(0, 0, true)}}}, Cap: 3, T0: 5, Hooks: true,
+			Init: []engsim.Init{{T: 5, H: 0, Sec: false, Bud: 2}, {T: 7, H: 0, Sec: true, Bud: 0}}},
 		// past-time Schedule after one successful Schedule
 		{Prog: [][][]engsim.Spawn{{{sp(1, 0, false), sp(-1, 0, false), sp(0, 0, true)}}}, Cap: 9,
 			Init: []engsim.Init{{T: 5, H: 0, Sec: false, Bud: 2}, {T: 7, H: 0, Sec: true, Bud: 0}}},
@@ -47,7 +56,7 @@ func directed() []engsim.Script {
 }
 
 func gen(r *hx.Rand, tier string) []json.RawMessage {
-	n, nbig := 420, 12
+	n, nbig := 600, 14
 	if tier == "thorough" {
 		n, nbig = 9000, 400
 	}
@@ -91,7 +100,7 @@ func init() {
 		Rule: "handler scripts (1-6 handlers, 1-3 alternatives each, 0-3 spawns per alternative, dt=0 with probability 1/2, " +
 			"secondary with probability 1/2, budgets strictly decreasing, global spawn allowance) run on the real timing.SerialEngine; " +
 			"kinds: mixed, equal-time bursts (20-400 initial events on 1-4 distinct times), same-instant primary/secondary chains, " +
-			"long chains (up to 400 events), a malformed share with a past-time Schedule (panic); directed corner scripts and " +
+			"long chains (up to 400 events), a malformed share (a past-time Schedule, or SetCurrentTime after a queued event: both panic); directed corner scripts and " +
 			"bursts of 1..64 equal-time events; trace recorded through Before/AfterEvent hooks in half of the cases, from inside " +
 			"the handlers otherwise. Non-trivial: the run has a same-instant spawn and at least two handled events with equal time, no panic. " +
 			"Distinct = distinct input hash.",
